@@ -400,7 +400,33 @@ def _plus(seconds):
 # ---- SY: sync_expires with the owned clock (max_age given, expires absent -> Expires = clock + max_age)
 SYNC_AGES = [(0, 0), (60, 60), (timedelta(minutes=2, microseconds=7), 120), (-1, -1), (86400 * 400, 86400 * 400),
              (1, 1), (timedelta(0), 0), (timedelta(milliseconds=500), 0), (timedelta(seconds=-2), -2)]
-SYNC_VIA = ["dump_cookie", "Response.set_cookie"]
+from werkzeug.sansio.response import Response as SansIOResponse  # noqa: E402
+
+
+class NoWarnResponse(Response):
+    max_cookie_size = 0     # the documented way to switch the size warning off
+
+
+class NoWarnSansIO(SansIOResponse):
+    max_cookie_size = 0
+
+
+# how the cookie is set (seed C13-6a: max_cookie_size must only steer the warning, never the attributes)
+SYNC_VIA = [
+    ("dump_cookie", None), ("Response.set_cookie", lambda: Response("x")),
+    ("Response max_cookie_size=0", lambda: _with_msz(Response("x"), 0)),
+    ("Response max_cookie_size=1", lambda: _with_msz(Response("x"), 1)),
+    ("Response subclass max_cookie_size=0", lambda: NoWarnResponse("x")),
+    ("sansio Response", lambda: SansIOResponse()),
+    ("sansio Response max_cookie_size=0", lambda: _with_msz(SansIOResponse(), 0)),
+    ("sansio subclass max_cookie_size=0", lambda: NoWarnSansIO()),
+]
+
+
+def _with_msz(r, n):
+    r.max_cookie_size = n
+    return r
+
 
 
 def sync_problem(ai, via, ei, vi):
@@ -412,8 +438,10 @@ def sync_problem(ai, via, ei, vi):
             if via == 0:
                 h = dump_cookie("k", v, max_age=age, expires=exp, path="/", sync_expires=True)
             else:
-                r = Response("x")
-                r.set_cookie("k", v, max_age=age, expires=exp)
+                r = SYNC_VIA[via][1]()
+                with warnings.catch_warnings():
+                    warnings.simplefilter("ignore")
+                    r.set_cookie("k", v, max_age=age, expires=exp)
                 hs = r.headers.getlist("Set-Cookie")
                 if len(hs) != 1:
                     return "set-cookie-count", hs
@@ -436,13 +464,18 @@ def resp_problem(pi, di, se, ho, si, pa, op, msz):
     path, epath = PATHS[pi]
     dom, edom = DOMAINS[di]
     ss, ess = SAMESITES[si]
-    r = Response("x")
+    sansio = op.endswith("-sansio")
+    r = SansIOResponse() if sansio else Response("x")
     r.max_cookie_size = msz
     v = "a;b c" * 3
     try:
-        with warnings.catch_warnings(record=True) as caught:
+        with warnings.catch_warnings(record=True) as caught, owned_clock():
             warnings.simplefilter("always")
-            if op == "delete":
+            if op.startswith("set-sync"):
+                # max_age without expires: Expires = harness clock + max_age whatever max_cookie_size is
+                r.set_cookie("k", v, max_age=60, path=path, domain=dom, secure=se, httponly=ho, samesite=ss,
+                             partitioned=pa)
+            elif op.startswith("delete"):
                 r.delete_cookie("k", path=path, domain=dom, secure=se, httponly=ho, samesite=ss, partitioned=pa)
             elif op == "set":
                 r.set_cookie("k", v, max_age=60, expires=T0, path=path, domain=dom, secure=se, httponly=ho,
@@ -455,9 +488,14 @@ def resp_problem(pi, di, se, ho, si, pa, op, msz):
         return "exception:" + type(e).__name__, repr(e)
     hs = r.headers.getlist("Set-Cookie")
     want = []
+    if op.startswith("set-sync"):
+        if len(hs) != 1:
+            return "set-cookie-count", hs
+        res = [attr_problem(v, hs[0], expected_attrs(edom, w, "60", se, ho, epath, ess, pa)) for w in _plus(60)]
+        return (None if None in res else "set-sync:" + res[0]), hs
     if op in ("set", "set+delete"):
         want.append((v, expected_attrs(edom, T0_TEXT, "60", se, ho, epath, ess, pa)))
-    if op in ("delete", "set+delete"):
+    if op in ("delete", "set+delete", "delete-sansio"):
         want.append(("", expected_attrs(edom, EPOCH_TEXT, "0", se, ho, epath, ess, pa)))
     if len(hs) != len(want):
         return "set-cookie-count", hs
@@ -869,7 +907,8 @@ def run_r2_unit(unit, R, tier):
     T = tier == "thorough"
     if kind == "r2sync":
         for ai in range(len(SYNC_AGES)):
-            for via in (0, 1):
+            for via in range(len(SYNC_VIA)):
+                R.use("syncvia:%d" % via)
                 for ei in range(len(EXPIRES)):
                     for vi in range(len(ATTR_VALUES)):
                         what, h = r2_eval(R, "sync", (ai, via, ei, vi))
@@ -881,7 +920,7 @@ def run_r2_unit(unit, R, tier):
         for di in range(len(DOMAINS)):
             for se, ho, pa in itertools.product((False, True), repeat=3):
                 for si in range(len(SAMESITES)):
-                    for op in ("delete", "set", "set+delete"):
+                    for op in ("delete", "set", "set+delete", "set-sync", "set-sync-sansio", "delete-sansio"):
                         for msz in (0, 1, 4093):
                             r2_eval(R, "resp", (pi, di, se, ho, si, pa, op, msz))
                             R.use("resp:" + op, "msz:%d" % msz)
@@ -995,8 +1034,10 @@ def finalize(R, tier):
         need |= {f"exp:{i}" for i in range(len(EXPIRES))} | {f"ss:{i}" for i in range(len(SAMESITES))}
     need |= {f"age:{i}" for i in range(len(MAX_AGES))} | {f"dom:{i}" for i in range(len(DOMAINS))}
     need |= {"r2:" + k for k in R2} | {"sync:explicit", "sync:clock", "resp:delete", "resp:set", "resp:set+delete",
+                                        "resp:set-sync", "resp:set-sync-sansio", "resp:delete-sansio",
                                         "msz:0", "msz:1", "msz:4093", "samesite:refused", "attrs-sync", "scope:sent",
                                         "scope:withheld", "pairs", "sweepx"}
+    need |= {"syncvia:%d" % i for i in range(len(SYNC_VIA))}
     need |= {"tchar:" + c for c in TCHARS} | {"cls:%d" % i for i in range(len(MC_CLS))} | {"parser:0", "parser:1"}
     need |= {"sep:%d" % i for i in range(1, len(MC_SEPS))}
     need |= {"jarop:" + o for o in JAR_OPS} | {"attrkey:" + n for n in ATTR_NAMES}
